@@ -9,7 +9,7 @@ W=/tmp/seedrun_$$_$CID
 git -C /repo worktree add -f $W HEAD -q || exit 2
 trap "git -C /repo worktree remove --force $W >/dev/null 2>&1" EXIT
 OUT=/verif/seeded/${OUTNAME:-$CID}; mkdir -p $OUT
-cp $SRC/patch.diff $SRC/demo.py $OUT/ ; cp $SRC/meta.json $OUT/meta.author.json
+if [ "$(readlink -f $SRC)" != "$(readlink -f $OUT)" ]; then cp $SRC/patch.diff $SRC/demo.py $OUT/ ; cp $SRC/meta.json $OUT/meta.author.json; fi   # re-run mode: SRC is the stored copy
 cd $W
 PYTHONPATH=$W /venv/bin/python -W ignore $OUT/demo.py > $OUT/demo_clean.log 2>&1; RC0=$?
 git apply $OUT/patch.diff || { echo "PATCH DOES NOT APPLY"; exit 2; }
